@@ -578,8 +578,13 @@ def _dispatch_rules(gen: Function, helpers: Dict[str, ast.AST], rep: Report, con
         work = list(fs)
         while work:
             nm, tv = work.pop()
-            ds = [v for k_, v, _ in _DL.defs.get(nm, []) if k_ == "assign" and v is not None]
-            if len(_DL.defs.get(nm, [])) == 1 and len(ds) == 1:
+            alld = _DL.defs.get(nm, [])
+            ds = [v for k_, v, _ in alld if k_ == "assign" and v is not None]
+            if tv:  # a definition `flag = False` / `flag = None` cannot be the one that made the flag true
+                ds = [v for v in ds if not (isinstance(v, ast.Constant) and not v.value)]
+            else:
+                ds = [v for v in ds if not (isinstance(v, ast.Constant) and v.value is True)]
+            if all(k_ == "assign" for k_, _, _ in alld) and len(ds) == 1:
                 for f_ in _implied(ds[0], tv):
                     if f_ not in out and f_[0] != nm:
                         out.add(f_)
